@@ -361,7 +361,7 @@ Definition getattr_env (s : state) (h oh : N) (x : session) (rest ptr cnt : N) :
   fold_right (fun f e => f e) C_GetAttributeValue.default
     [(C_GetAttributeValue.set_handleManager_getObject (fun _ => match get_object s oh with Some _ => 1 | None => 0 end));
      (C_GetAttributeValue.set_handleManager_getSession (fun _ => 1));
-     (C_GetAttributeValue.set_haveRead (fun st _ priv => gen_haveRead st priv));
+     (C_GetAttributeValue.set_haveRead gen_haveRead);
      (C_GetAttributeValue.set_object_getBooleanValue (fun a d => b2n (obj_bool (obj_of s oh) a d)));
      (C_GetAttributeValue.set_object_isValid 1);
      (C_GetAttributeValue.set_session_getState (sess_state s x));
@@ -400,8 +400,8 @@ Proof.
   intros Hp. unfold getattr_env, obj_of. C_GetAttributeValue.open_env. cbn [N.eqb negb orb].
   destruct (N.eqb_spec ptr 0) as [E|_]; [contradiction|].
   destruct (get_object s oh) as [[[e loc] ob]|]; cbn [N.eqb negb orb]; [|reflexivity].
-  unfold have_read, o_private. cbv [CKA_PRIVATE CKR_OK CKR_GENERAL_ERROR].
-  destruct (gen_haveRead (sess_state s x) (b2n (obj_bool ob 2 true)) =? 0); cbn [negb]; [reflexivity|].
+  unfold have_read, o_private, o_token. cbv [CKA_PRIVATE CKA_TOKEN CKR_OK CKR_GENERAL_ERROR].
+  destruct (gen_haveRead (sess_state s x) (b2n (obj_bool ob 1 false)) (b2n (obj_bool ob 2 true)) =? 0); cbn [negb]; [reflexivity|].
   destruct (_ =? 257); reflexivity.
 Qed.
 
